@@ -92,9 +92,14 @@ class CallFunction(Node):
             
             params: LoadListOperation = cast(LoadListOperation, self.parameters)
             if 'sound' == self.name:
-                modif: Node = params.operands.pop()
+                # The modifier is the last operand; the operand list itself
+                # must stay untouched for the next code generation
+                modif: Node = params.operands[len(params.operands) - 1]
+                rest: LoadListOperation = LoadListOperation(params.name,
+                                                            params.position)
+                rest.operands = params.operands[:-1]
                 return vsprintf("sound %s %s", modif.name,
-                                      params.generate_lingo(indentation))
+                                      rest.generate_lingo(indentation))
             
             if self.use_parenthesis:
                 return self.name + '('+params.generate_lingo(indentation)+')'
